@@ -64,6 +64,7 @@ pub enum StepOutcome {
 
 /// Rebuild a system and replay a history without monitors (prefix replay).
 pub fn replay_plain(sc: &Rc<Scenario>, history: &[Ev]) -> Result<System, (usize, String, String)> {
+    crate::common::take_swallowed_panic();
     let mut sys = System::new(sc.clone());
     for (i, ev) in history.iter().enumerate() {
         let r = catch_unwind(AssertUnwindSafe(|| {
@@ -74,7 +75,11 @@ pub fn replay_plain(sc: &Rc<Scenario>, history: &[Ev]) -> Result<System, (usize,
             sys.take_obs();
         }));
         if let Err(p) = r {
+            crate::common::take_swallowed_panic();
             return Err((i, panic_message(&p), take_panic_location()));
+        }
+        if let Some((m, l)) = crate::common::take_swallowed_panic() {
+            return Err((i, format!("hqmc-divergence: swallowed panic in prefix: {m}"), l));
         }
     }
     Ok(sys)
@@ -87,16 +92,27 @@ pub fn monitored_step(
     ev: Ev,
     pre: &KeyParts,
 ) -> Result<KeyParts, (String, String)> {
+    crate::common::take_swallowed_panic();
+    let label = sys.pre_label(ev);
+    let tag = |m: String| format!("{m} [during {label}]");
     let r = catch_unwind(AssertUnwindSafe(|| {
         sys.apply(ev);
+        if let Some((m, l)) = crate::common::take_swallowed_panic() {
+            // a panic inside a spawned task (client handler, task future): tokio swallowed it
+            return Err((tag(m), l));
+        }
         let obs = sys.take_obs();
         let post = key_parts(sys);
         mon.step(sys, Some(ev), &obs, Some(pre), &post);
-        post
+        Ok(post)
     }));
     match r {
-        Ok(post) => Ok(post),
-        Err(p) => Err((panic_message(&p), take_panic_location())),
+        Ok(Ok(post)) => Ok(post),
+        Ok(Err(e)) => Err(e),
+        Err(p) => {
+            crate::common::take_swallowed_panic();
+            Err((tag(panic_message(&p)), take_panic_location()))
+        }
     }
 }
 
@@ -120,12 +136,19 @@ fn panic_site(message: &str, location: &str) -> String {
     // file without line number + message with digits blanked: stable across unrelated edits
     let file = location.rsplit_once(':').map(|x| x.0).unwrap_or(location);
     let file = file.rsplit("crates/").next().unwrap_or(file);
+    let (message, during) = match message.rsplit_once(" [during ") {
+        Some((m, d)) => (m, format!(" [during {d}")),
+        None => (message, String::new()),
+    };
     let msg: String = message
+        .split_whitespace()
+        .collect::<Vec<_>>()
+        .join(" ")
         .chars()
         .map(|c| if c.is_ascii_digit() { '#' } else { c })
         .take(70)
         .collect();
-    format!("{file}: {msg}")
+    format!("{file}: {msg}{during}")
 }
 
 fn outcome_of(parts: &KeyParts) -> String {
@@ -160,6 +183,7 @@ pub fn explore(sc: &Scenario, opts: &ExploreOpts) -> ExploreResult {
     // initial state
     {
         tako::verif::set_sched_memo(true);
+                    tako::verif::set_group_solver_memo(true);
         let sc_local = Rc::new(sc_rc.clone());
         let mut sys = System::new(sc_local.clone());
         let obs = sys.take_obs();
@@ -219,6 +243,7 @@ pub fn explore(sc: &Scenario, opts: &ExploreOpts) -> ExploreResult {
                 let max_states = sc.max_states;
                 scope.spawn(move || {
                     tako::verif::set_sched_memo(true);
+                    tako::verif::set_group_solver_memo(true);
                     let sc_local = Rc::new(sc.clone());
                     let mut local_transitions = 0u64;
                     loop {
@@ -407,10 +432,12 @@ fn expand(
         }
         // dispose outside the lock; a poisoned system may panic while being torn down
         let _ = catch_unwind(AssertUnwindSafe(move || sys.dispose()));
+        crate::common::take_swallowed_panic();
     }
     if let Some(b) = base.take() {
         let _ = catch_unwind(AssertUnwindSafe(move || b.dispose()));
     }
+    crate::common::take_swallowed_panic();
 }
 
 fn audit_key(sc_local: &Rc<Scenario>, props: &[Prop], node: &Node, ev: Ev) -> Option<u128> {
@@ -421,6 +448,7 @@ fn audit_key(sc_local: &Rc<Scenario>, props: &[Prop], node: &Node, ev: Ev) -> Op
     let post = monitored_step(&mut sys, &mut mon, ev, &pre).ok()?;
     let key = state_key(&sys, &post, mon.state_hash());
     let _ = catch_unwind(AssertUnwindSafe(move || sys.dispose()));
+    crate::common::take_swallowed_panic();
     Some(key)
 }
 
@@ -433,6 +461,7 @@ pub fn replay_with_monitors(
     verbose: bool,
 ) -> Vec<Violation> {
     tako::verif::set_sched_memo(false);
+    tako::verif::set_group_solver_memo(false);
     let sc_local = Rc::new(sc.clone());
     let mut out: Vec<Violation> = Vec::new();
     let mut sys = System::new(sc_local.clone());
@@ -500,7 +529,9 @@ pub fn replay_with_monitors(
         }
     }
     let _ = catch_unwind(AssertUnwindSafe(move || sys.dispose()));
+    crate::common::take_swallowed_panic();
     tako::verif::set_sched_memo(true);
+    tako::verif::set_group_solver_memo(true);
     out
 }
 
